@@ -419,7 +419,7 @@ func scenarioGrantTypeMatrix(ctx *RunCtx) {
 				panic(err)
 			}
 			for _, c := range clients {
-				if c.Public && c.ID == 3 {
+				if c.Public && c.ID == 3 || len(c.Redirects) == 0 {
 					continue
 				}
 				cred := Cred{ID: c.ID, OK: !c.Public}
@@ -456,6 +456,111 @@ func scenarioGrantTypeMatrix(ctx *RunCtx) {
 			ctx.AddStats(g.stats)
 		}
 	}
+}
+
+// C04 / C01 / C05 / C10, the jwt-bearer grant (RFC 7523): every client kind (registered for the grant with JWT
+// tokens and refresh_token, registered and pairwise without refresh_token, public and registered, confidential
+// and public NOT registered, an unknown client id, NO client identification at all) x client authentication
+// required for the grant or not x credential right / wrong x assertion accepted / refused by the embedder /
+// absent x scopes inside the registration, outside it (substring, superstring, a server scope the client did not
+// register, the bare id of a prefix scope, a scope nobody knows) and none; then, for every token issued,
+// introspection, userinfo, a refresh by the owner and by another client and introspection of what the refresh
+// gave.  A second server has another scope list (the anonymous client is made of THIS server's scopes) and
+// resource indicators (the requested resources must be among the configured ones).
+func scenarioJwtBearerMatrix(ctx *RunCtx) {
+	type who struct {
+		id   int
+		note string
+	}
+	whos := []who{{2, "registered-jwt-refresh"}, {4, "registered-pairwise"}, {14, "registered-public"}, {1, "not-registered"},
+		{3, "not-registered-public"}, {9, "unknown-client"}, {0, "no-identification"}}
+	otherScopes := []Scope{{ID: "openid"}, {ID: "profile"}, {ID: "extra"}, {ID: "pay", Prefix: "pay:", Dyn: true}}
+	resA, resB := "https://api.example/a", "https://api.example/b"
+	n := 0
+	for _, required := range []bool{false, true} {
+		for si, scopes := range [][]Scope{serverScopes, otherScopes} {
+			for _, wh := range whos {
+				fl := []string{"copy", "alias"}[n%2]
+				n++
+				opts := []Opt{{Name: "WithScopes", Scopes: scopes}, {Name: "WithClientCredentialsGrant"}, {Name: "WithJWTBearerGrant"},
+					{Name: "WithRefreshTokenGrant", Z: 600}, {Name: "WithTokenIntrospection"}, {Name: "WithTokenRevocation"}, {Name: "WithTokenLifetime", Z: 300}}
+				if required {
+					opts = append(opts, Opt{Name: "WithJWTBearerGrantClientAuthnRequired"})
+				}
+				if si == 1 {
+					opts = append(opts, Opt{Name: "WithResourceIndicators", S: resA, L: []string{resB}})
+				}
+				g, err := NewSysGen(ctx.R, WorldSpec{Profile: "openid", Flavour: fl, Static: baseClients(ctx.R), Opts: opts})
+				if err != nil {
+					panic(err)
+				}
+				creds := []Cred{{ID: wh.id, OK: true}, {ID: wh.id, OK: false}}
+				if wh.id == 0 {
+					creds = creds[:1]
+				}
+				scopeReqs := []string{"openid", "openid email", "openid profile", "pay:1 openid", "emai", "openid_x openid", "openid admin", "pay", "extra", "no-such-scope", "openid offline_access", ""}
+				other := Cred{ID: 1, OK: true}
+				follow := func(tok Obs, owner Cred) {
+					ex := PTok{Kind: "PExact", H: tok.At}
+					g.do(Op{Kind: "Introspect", Cred: other, Tok: ex, Allowed: true})
+					g.do(Op{Kind: "UserInfo", Tok: ex, HasHeader: true})
+					if tok.Rt == 0 {
+						return
+					}
+					g.do(Op{Kind: "Introspect", Cred: other, Tok: PTok{Kind: "PExact", H: tok.Rt}, Allowed: true})
+					g.do(Op{Kind: "Token", Grant: "refresh_token", Cred: other, Refresh: tok.Rt, HG: "HgOk", BA: "BaApprove"})
+					g.do(Op{Kind: "Token", Grant: "refresh_token", Cred: owner, Refresh: tok.Rt, Scope: "openid admin", HG: "HgOk", BA: "BaApprove"})
+					if o := g.do(Op{Kind: "Token", Grant: "refresh_token", Cred: owner, Refresh: tok.Rt, HG: "HgOk", BA: "BaApprove"}); o.Kind == "Tokens" {
+						g.do(Op{Kind: "Introspect", Cred: other, Tok: PTok{Kind: "PExact", H: o.At}, Allowed: true})
+						g.do(Op{Kind: "UserInfo", Tok: PTok{Kind: "PExact", H: o.At}, HasHeader: true})
+					}
+				}
+				for _, cr := range creds {
+					for _, as := range []string{"ok:alice", "refused-by-the-embedder", ""} {
+						for _, sc := range scopeReqs {
+							if as != "ok:alice" && sc != "openid" && sc != "emai" {
+								continue // the assertion guards sit before (absent) and after (refused) the scope guard: one inside, one outside
+							}
+							op := Op{Kind: "Token", Grant: jwtBearerGrant, Cred: cr, Scope: sc, Assertion: as, HG: "HgOk", BA: "BaApprove"}
+							if tok := g.do(op); tok.Kind == "Tokens" {
+								g.learnTokens(tok, cr.ID, sc, nil)
+								follow(tok, cr)
+							}
+						}
+					}
+					if si == 1 {
+						// resource indicators: inside, outside and beside the configured list
+						for _, res := range [][]string{{resA}, {resA, resB}, {"https://evil.example/rs"}, {resA, "https://api.example/a/"}} {
+							op := Op{Kind: "Token", Grant: jwtBearerGrant, Cred: cr, Scope: "openid", Assertion: "ok:bob", Resources: res, HG: "HgOk", BA: "BaApprove"}
+							if tok := g.do(op); tok.Kind == "Tokens" {
+								follow(tok, cr)
+							}
+						}
+					}
+					// the embedder's HandleGrantFunc refuses
+					g.do(Op{Kind: "Token", Grant: jwtBearerGrant, Cred: cr, Scope: "openid", Assertion: "ok:alice", HG: "HgDeny", BA: "BaApprove"})
+				}
+				// the owner revokes what it got last; a client_credentials token for comparison
+				if len(g.ats) > 0 {
+					g.do(Op{Kind: "Revoke", Cred: Cred{ID: wh.id, OK: true}, Tok: PTok{Kind: "PExact", H: g.ats[len(g.ats)-1].H}, Allowed: true})
+					g.do(Op{Kind: "Introspect", Cred: other, Tok: PTok{Kind: "PExact", H: g.ats[len(g.ats)-1].H}, Allowed: true})
+				}
+				ctx.AddCase(g.Case(fmt.Sprintf("scenario:jwt-bearer-matrix/%s/authn-required=%v/server=%d/%s", wh.note, required, si, fl)))
+				ctx.AddStats(g.stats)
+			}
+		}
+	}
+	// a server without the grant: unsupported_grant_type for everybody
+	g, err := NewSysGen(ctx.R, WorldSpec{Profile: "openid", Flavour: "copy", Static: baseClients(ctx.R), Opts: []Opt{
+		{Name: "WithScopes", Scopes: serverScopes}, {Name: "WithClientCredentialsGrant"}, {Name: "WithTokenIntrospection"}}})
+	if err != nil {
+		panic(err)
+	}
+	for _, cr := range []Cred{{ID: 2, OK: true}, {ID: 2, OK: false}, {}} {
+		g.do(Op{Kind: "Token", Grant: jwtBearerGrant, Cred: cr, Scope: "openid", Assertion: "ok:alice", HG: "HgOk", BA: "BaApprove"})
+	}
+	ctx.AddCase(g.Case("scenario:jwt-bearer-matrix/grant-not-enabled/copy"))
+	ctx.AddStats(g.stats)
 }
 
 func pkceConfigs() []pkceCfg {
@@ -501,8 +606,8 @@ func init() {
 	register(&Suite{Name: "c05", Run: func(ctx *RunCtx) {
 		scenarioRevokeExpired(ctx)
 		scenarioAcceptorMatrix(ctx)
-		runSysHistories(ctx, ctx.N(140, 5000), 36, map[string]bool{"refresh": true, "implicit": true},
-			map[string]int{"authorize": 12, "callback": 4, "par": 1, "code": 14, "refresh": 10, "cc": 5, "query": 40, "tick": 8, "bc": 2, "poll": 3, "notify": 1}, 40, []string{"copy", "alias"}, "c05")
+		runSysHistories(ctx, ctx.N(140, 5000), 36, map[string]bool{"refresh": true, "implicit": true, "jwtbearer": true},
+			map[string]int{"authorize": 12, "callback": 4, "par": 1, "code": 14, "refresh": 10, "cc": 5, "jwtbearer": 5, "query": 40, "tick": 8, "bc": 2, "poll": 3, "notify": 1}, 40, []string{"copy", "alias"}, "c05")
 		ctx.Meta.Rule = "issuance (opaque and JWT, all grant types), refresh, revocation by owning or other client, code replay, ticks, then presentation of exact, jti-only and forged terms (truncated, extended, re-signed, alg none, edited, other issuer, non-canonical signature) at /introspect, /userinfo, TokenInfo and TokenInfoFromRequest; distinct by projected trace; non-trivial = at least one accepted and one refused operation"
 		ctx.writeSysCases("mon_C05", true)
 		ctx.writeCasesJSON()
@@ -561,16 +666,16 @@ func init() {
 		ctx.writeSysCases("mon_C10x", true)
 		ctx.writeCasesJSON()
 	}})
-	histSuite("c10", "mon_C10x", "refresh chains of 1-30 refreshes with requested sub/supersets, by the owning or another client, ticks up to and beyond the grant lifetime, rotation on and off, grants from authorization_code and CIBA; introspection of refresh tokens",
-		100, 4000, 40, map[string]bool{"refresh": true, "ciba": true},
-		map[string]int{"authorize": 10, "callback": 4, "par": 1, "code": 12, "refresh": 34, "cc": 1, "query": 16, "tick": 9, "bc": 5, "poll": 7, "notify": 1}, 30, scenarioRotationPolicy, scenarioGrantedSubset)
+	histSuite("c10", "mon_C10x", "refresh chains of 1-30 refreshes with requested sub/supersets, by the owning or another client, ticks up to and beyond the grant lifetime, rotation on and off, grants from authorization_code, CIBA and jwt-bearer; introspection of refresh tokens",
+		100, 4000, 40, map[string]bool{"refresh": true, "ciba": true, "jwtbearer": true},
+		map[string]int{"authorize": 10, "callback": 4, "par": 1, "code": 12, "refresh": 34, "cc": 1, "jwtbearer": 5, "query": 16, "tick": 9, "bc": 5, "poll": 7, "notify": 1}, 30, scenarioRotationPolicy, scenarioGrantedSubset)
 	histSuite("c16", "mon_C16", "CIBA histories over poll/ping/push clients with user code, scripted embedder decisions (pending, slow down, approve, deny, error), polls by the initiating or another client, ticks across the request lifetime, success/failure notifications through the provider API",
 		120, 4000, 34, map[string]bool{"ciba": true, "refresh": true},
 		map[string]int{"authorize": 2, "callback": 1, "par": 1, "code": 2, "refresh": 5, "cc": 1, "query": 10, "tick": 9, "bc": 24, "poll": 30, "notify": 14}, 30, scenarioCibaDenialEnds)
 	histSuite("c17", "mon_C17", "interleavings of several users' and clients' interactive flows with multi-step policies (succeed, fail, abandoned), ticks across the session timeout, stale/foreign/unknown callback ids, flows started from pushed requests",
 		120, 4000, 36, map[string]bool{"par": true},
 		map[string]int{"authorize": 26, "callback": 30, "par": 10, "code": 8, "refresh": 2, "cc": 1, "query": 8, "tick": 9, "bc": 1, "poll": 1, "notify": 1}, 30, scenarioSessionDeadline)
-	histSuite("c04flow", "mon_C04x", "scenario matrix: clients with aligned and NOT aligned grant_types / response_types (hybrid response types without implicit, implicit without its response types, code response type without authorization_code) x every response type x servers with both grants / code only / implicit only, direct and pushed, every code redeemed; then histories over all grant types (the same clients included) with requested scope sub/supersets, refresh chains, introspection and userinfo of every token",
-		80, 3000, 36, map[string]bool{"refresh": true, "implicit": true, "misaligned": true},
-		map[string]int{"authorize": 14, "callback": 6, "par": 3, "code": 16, "refresh": 18, "cc": 8, "query": 20, "tick": 3, "bc": 4, "poll": 6, "notify": 2}, 30, scenarioGrantTypeMatrix, scenarioGrantedSubset)
+	histSuite("c04flow", "mon_C04x", "scenario matrices: the jwt-bearer grant (every client kind incl. no client identification at all x client authentication required or not x credential right / wrong x assertion accepted / refused / absent x scopes inside / outside the registration, resources, then introspection, userinfo and refresh of every token issued); clients with aligned and NOT aligned grant_types / response_types (hybrid response types without implicit, implicit without its response types, code response type without authorization_code) x every response type x servers with both grants / code only / implicit only, direct and pushed, every code redeemed; then histories over all grant types (the same clients included) with requested scope sub/supersets, refresh chains, introspection and userinfo of every token",
+		80, 3000, 36, map[string]bool{"refresh": true, "implicit": true, "misaligned": true, "jwtbearer": true},
+		map[string]int{"authorize": 14, "callback": 6, "par": 3, "code": 16, "refresh": 18, "cc": 8, "jwtbearer": 9, "query": 20, "tick": 3, "bc": 4, "poll": 6, "notify": 2}, 30, scenarioGrantTypeMatrix, scenarioGrantedSubset, scenarioJwtBearerMatrix)
 }
